@@ -26,6 +26,25 @@ def loop_jobs(sets, params=None, variants=("a", "n")):
     return js
 
 
+LLVM_LINK = ["/usr/lib/llvm-14/lib/libLLVMSupport.a", "/usr/lib/llvm-14/lib/libLLVMDemangle.a", "-lz", "-ltinfo", "-lrt", "-lm"]
+APPS = {1: ("bfs", "lonestar/analytics/cpu/bfs/bfs.cpp"), 2: ("sssp", "lonestar/analytics/cpu/sssp/SSSP.cpp"),
+        3: ("cc", "lonestar/analytics/cpu/connected-components/ConnectedComponents.cpp"), 4: ("kcore", "lonestar/analytics/cpu/k-core/kcore.cpp"),
+        5: ("tri", "lonestar/analytics/cpu/triangle-counting/Triangles.cpp"), 6: ("mis", "lonestar/analytics/cpu/independentset/IndependentSet.cpp"),
+        7: ("boruvka", "lonestar/analytics/cpu/spanningtree/Boruvka.cpp")}
+
+
+def app_jobs(ids, variant="n"):
+    js = []
+    for k in ids:
+        name, src = APPS[k]
+        js.append(dict(harness="c20_%s" % name, variant=variant, weight=1,
+                       build=dict(sources=[("/verif/harness/c20_apps.cpp", ["-DAPP=%d" % k]), ("/repo/" + src, ["-Dmain=app_main"]),
+                                           "/repo/lonestar/liblonestar/src/BoilerPlate.cpp"],
+                                  extra_inc=["/repo/lonestar/liblonestar/include", "/repo/" + src.rsplit("/", 1)[0]],
+                                  extra_flags=["-isystem", "/usr/lib/llvm-14/include"], extra_link=LLVM_LINK)))
+    return js
+
+
 PROPS = {
     "C01": dict(
         jobs=loop_jobs([0, 1, 2, 3]),
@@ -163,6 +182,16 @@ PROPS = {
                    "for format versions 1 and 2, edge data widths 0/4/8, odd and even edge counts, under injected short reads.",
         level_note="That each graph-convert option computes the documented graph is a pure function of the input file and is NOT decided here (DESIGN 3.12); BufferedGraph is exercised for version 1 only (documented limitation).",
         **tiers(5000, 100, 100000, 1200)),
+    "C20": dict(
+        jobs=app_jobs([1, 2, 3, 4, 5, 6, 7]),
+        components=comp(extra_real=["the unmodified application sources (their own main(), renamed), liblonestar BoilerPlate"], extra_stub=["LLVM command-line library runs uninstrumented"]),
+        expected_probes=["app_runs"],
+        design_ref="3.20",
+        level_text="The real Lonestar executables (bfs, sssp, connected-components, k-core, triangle-counting, independent-set, Boruvka) run under the simulator with every -algo variant they offer, "
+                   "1-16 threads and synthetic topologies, on generated small graphs (disconnected, hubs, zero/large weights, parallel edges and self loops where the application accepts them) written by the harness writer. "
+                   "Oracle: the printed summary compared with independent references in the driver (Dijkstra/BFS, union-find, peeling, brute-force triangles, Kruskal, enumeration of maximal independent sets).",
+        level_note="Sampling over seeds and schedules; shared-memory applications only at this commit (distributed ones are covered when the multi-host world is registered). The applications' own verify steps stay on but are not the oracle.",
+        **tiers(1500, 170, 40000, 2400, run_timeout_s=120)),
 }
 
 ALL_IDS = ["C%02d" % i for i in range(1, 21)]
